@@ -42,9 +42,18 @@ class ReaderRun:
         self.header_ids: List[int] = []
         self.atom_ids: List[int] = []
         self.atom_loops: List[int] = []
+        self.comp_reads = []     # readline() evaluated per element of a comprehension: (event, generators)
         for ev in self.it.events:
             if ev.kind == "call" and ev.data["call"][1] == ".readline":
                 uid = dict(ev.data["call"][3])["@"][1]
+                if ev.data.get("in_comp"):
+                    # one line per element of the comprehension - an atom block when it runs over the particle count, otherwise
+                    # an unknown number of lines: never a single header line
+                    self.comp_reads.append((ev, ev.data["in_comp"]))
+                    if not ev.loops:
+                        self.atom_ids.append(uid)
+                        self.atom_loops.append(None)
+                    continue
                 if ev.loops:
                     self.atom_ids.append(uid)
                     self.atom_loops.append(ev.loops[-1])
@@ -52,8 +61,8 @@ class ReaderRun:
                     self.header_ids.append(uid)
         # the line model numbers header lines by the order of their readline() calls: it is valid only when every line read
         # inside a loop that could not be unrolled (the atom block) comes after all header lines
-        seqs_loop = [ev.seq for ev in self.it.events if ev.kind == "call" and ev.data["call"][1] == ".readline" and ev.loops]
-        seqs_hdr = [ev.seq for ev in self.it.events if ev.kind == "call" and ev.data["call"][1] == ".readline" and not ev.loops]
+        seqs_loop = [ev.seq for ev in self.it.events if ev.kind == "call" and ev.data["call"][1] == ".readline" and (ev.loops or ev.data.get("in_comp"))]
+        seqs_hdr = [ev.seq for ev in self.it.events if ev.kind == "call" and ev.data["call"][1] == ".readline" and not ev.loops and not ev.data.get("in_comp")]
         if seqs_loop and seqs_hdr and max(seqs_hdr) > min(seqs_loop):
             raise AnalysisError(f"{self.fq}: header lines are read inside a loop that cannot be unrolled for ndim={ndim}; the line-by-line model does not apply")
         self.rets = [r for r in self.it.returns if r.data["value"][0] == "call"]
